@@ -413,6 +413,7 @@ def c10(ctx):
     ctx.require("c10_after_precision_change")
     rdec_cases(ctx, "c10")
     ctx.require("invalid_data")
+    ctx.require("iid_iterator_with_errors")
     model_cases(ctx, "leaky", "c10", leaky_cfgs(ctx))
     model_cases(ctx, "leakybig", "c10", leakybig_cfgs(ctx))
 
